@@ -40,6 +40,7 @@ class FnSpec:
         self.attr = kw.pop('attr', '')                   # attribute line before fn
         self.nth = kw.pop('nth', None)
         self.n4 = kw.pop('n4', True)
+        self.n4c = kw.pop('n4c', False)
         self.safety_props = kw.pop('safety_props', None)
         self.group = kw.pop('group', None)
         self.optional = kw.pop('optional', False)     # item may be absent (e.g. an override of a trait default); then nothing to check             # emit inside the named group block (see Unit.groups)
@@ -229,6 +230,8 @@ def generate(unit, repo, vacuity=False):
             if spec.n4:
                 text, r = A.n4_unwrap_or_else(text); norms += r
                 text, r = A.n4b_ok_and_then(text); norms += r
+            if spec.n4c:
+                text, r = A.n4c_map(text); norms += r
             text, r = A.regex_rules(text, unit.global_rules + spec.rules); norms += r
             text, hoisted, r = A.n14_hoist(text); norms += r
             try:
